@@ -2,7 +2,7 @@
    reuse: the span bookkeeping of `advance!` is the line/column function of the source, and the
    tokens account for a prefix of the source (so every range lies inside it). *)
 From Coq Require Import Arith Wf_nat.
-From TeraV Require Import Model.Value Model.Utf8 Model.Lexer Spec.Doc Proofs.Utf8Proofs Proofs.LexerProofs.
+From TeraV Require Import Model.Value Model.Utf8Lex Model.Lexer Spec.Doc Proofs.Utf8Proofs Proofs.LexerProofs.
 Local Open Scope nat_scope.
 
 (* ---------------------------------------------------------------- line / column of an offset *)
